@@ -10,10 +10,13 @@ def main():
             subprocess.run(tool, stdout=subprocess.DEVNULL, stderr=subprocess.DEVNULL, check=True)
         except Exception as e:
             print("missing tool", tool, e); ok = False
+    import shutil
+    if not shutil.which("apalache-mc"):
+        print("note: apalache-mc not found - the Apalache strengthenings of C08/C09 will be skipped with a note")
     for f in (tlc.JAR, tlc.DEPS, "/venv/bin/python"):
         if not os.path.exists(f):
             print("missing", f); ok = False
-    mods = sorted(p for d in tlc.SPEC_DIRS for p in glob.glob(os.path.join(d, "*.tla")))
+    mods = sorted(p for d in tlc.SPEC_DIRS + [os.path.join(tlc.SPEC, "apalache")] for p in glob.glob(os.path.join(d, "*.tla")))
     with ThreadPoolExecutor(8) as ex:
         for p, (good, outp) in zip(mods, ex.map(tlc.sany, mods)):
             if not good:
